@@ -161,7 +161,7 @@ class State:
     h = self.heap
     r = z3.simplify(h.alloc)
     h = h.set('alloc', z3.simplify(r + 1))
-    s = self.assume(cls_fn(r) == z3.IntVal(CLASSES[clsname]))
+    s = self.assume(cls_fn(r) == (clsname if z3.is_expr(clsname) else z3.IntVal(CLASSES[clsname])))
     return s.with_heap(h), r
 
 
